@@ -1,3 +1,4 @@
+mod chain;
 mod codec;
 mod util;
 use util::*;
@@ -12,6 +13,7 @@ fn main() {
         for c in read_cases(path) {
             let r = match c.first() {
                 Some(9) => codec::run_case(&c[1..]),
+                Some(20) => chain::run_case(&c[1..]),
                 _ => vec![999_999],
             };
             out.emit(&c, &r);
@@ -21,6 +23,7 @@ fn main() {
     }
     match which.as_str() {
         "codec" => codec::generate(&a, &mut out),
+        "chain" => chain::generate(&a, &mut out),
         _ => {
             eprintln!("usage: vh-pure <codec|chain|socks> [--seed S] [--n N] [--mode M] [--replay FILE]");
             std::process::exit(2);
